@@ -19,26 +19,9 @@ EXPLANATION = (
     "two ECDSA call sites run the encoding checks and the signature check in the same order with the same flag/version arguments; "
     "tapscript charges VALIDATION_WEIGHT_PER_SIGOP_PASSED (50) per non-empty signature before the key-type dispatch. ECDSA/Schnorr "
     "verification, FindAndDelete, lax DER parsing and multisig matching order are NOT decided.")
-TRUSTED = ["clang 14 parser/Sema/constant evaluator", "/verif extractor, stream engine, finite-domain evaluator", "spec/digests.json transcription of BIP143/341/342"]
+TRUSTED = ["clang 14 parser/Sema/constant evaluator", "/verif extractor", "/verif term evaluator G-SYM (checker/symx.py): inlining, loop summaries relative to prev, linear normal form; casts between integer types are treated as value-preserving", "spec/digests.json transcription of BIP143/341/342"]
 ASSUMPTIONS = ["SHA-256 and secp256k1 are correct", "serialisation of each operand type (uint32, CTxOut, COutPoint, CScript) is decided under C13"]
 DECLINED = ["ECDSA / Schnorr verification and lax DER parsing", "FindAndDelete", "multisig signature/key matching order", "which encoding error wins"]
-
-
-def guarded_events(func, var):
-    """stream events on local `var` in source order with their structural guards"""
-    sp = lambda n: n.get("k") == "ref" and n["n"] == var
-    out = []
-    for n in func.nodes():
-        if n["k"] in ("opcall",) and n.get("op") == "<<":
-            par = func.parent(n)
-            if par is not None and par.get("k") == "opcall" and par.get("op") == "<<" and par["args"][0] is n:
-                continue   # inner part of a chain; handled from the outermost
-            base, ops = streams.flatten_chain(n)
-            if base is not None and sp(base):
-                g = [("" if t else "!") + astq.estr(c) for (c, t) in S.ast_guards(func, n)]
-                for (op, operand, node) in ops:
-                    out.append((astq.estr(operand), g, node))
-    return out
 
 
 def run(ctx, anchors=None):
